@@ -56,7 +56,7 @@ CFG = dict(
           "dereferences, non-nil values whose Error / String / MarshalText / MarshalJSON / Format / LogValue panic, errors wrapping "
           "http.ErrAbortHandler via %w and errors.Join, typed nil error whose Unwrap() panics, genuine runtime.Error values (nil map "
           "write, index out of range, nil dereference, divide by zero), chan, func, a 1 MiB string, invalid UTF-8 text) x Nano/Text/JSON "
-          "handler at Info, through a real HTTP server and by direct ServeHTTP (quick: both modes on one handler per script, rotating, "
+          "handler (at Info with addSource and colorful each off/on, rotating) at Info, through a real HTTP server and by direct ServeHTTP (quick: both modes on one handler per script, rotating, "
           "one mode on the other two; thorough: both on all); scripts of <= 1 action (+ core panic) at thresholds "
           "Debug/Warn/Error/Fatal; seeded random scripts of <= 9 actions with any code 200..599 incl. repeated WriteHeader; methods "
           "GET/POST/PUT/DELETE/PATCH/HEAD/OPTIONS; matched and unmatched routes; 1..64 requests in flight per batch; "
